@@ -26,6 +26,17 @@ PROPS = {
             dict(name="VerifUTF16DecodeTotal", bounds=dict(quick=dict(K=2), thorough=dict(K=3)), opts=dict(unwind=64)),
         ],
     ),
+    "C14": dict(
+        pkg=TY,
+        explanation="DateString and strict DateTime executed symbolically: year, month, day, hour, minute, second and the zone offset in minutes are seven unconstrained 64-bit SMT variables restricted only by the property's ranges, so all years 0..9999 x all dates x all whole-minute offsets are covered by one query set; integer encoding with explicit wrap-around; the time package is a contract model (civil-field record)",
+        outside="relaxed parsing, the time.Parse fall-backs, sub-second precision, the real time package's internals (replaced by the contract model: Date returns in-range fields unchanged, Date(y, m+1, 0).Day() = Gregorian month length)",
+        assumptions=["time package contract model (engine/timemodel.go)", "fmt %d/%0Nd modelled by digit arithmetic"],
+        # cvc5 1.0.3 answers unknown (120 s) on the "DateTime accepted" query; z3 5.1.0 decides every query (< 30 s)
+        opts=dict(enc="int", solvers=["z3-new"], unwind=64, timeout_ms=120000),
+        harnesses=[
+            dict(name="VerifDateRoundTrip"),
+        ],
+    ),
     "C42": dict(
         pkg=SM,
         level="model_checking",
